@@ -1,5 +1,5 @@
 (* C05 — framing is invariant under how the transport splits the byte stream. *)
-From EDP Require Import Base.Bytes Gen.FramingConsts Dist.Framing Dist.FramingFacts.
+From EDP Require Import Base.Bytes Gen.FramingConsts Dist.Framing Dist.FramingFacts Gen.Prealloc Codec.PreallocFacts.
 
 (* Any chunking (including Pending polls) of the concatenated frames of msgs, followed by any tail:
    |msgs| reads return exactly msgs, in order, and leave the reader positioned at the tail. *)
@@ -40,6 +40,11 @@ Example C05_example :
   read_frames 3 Distribution [Data [0]; Pending; Data [0; 0; 2; 7]; Data [8; 0; 0]; Pending; Data [0; 0; 0; 0; 0]; Data [1; 9]]
   = ([ROk [7; 8]; ROk []; ROk [9]], []).
 Proof. vm_compute. reflexivity. Qed.
+
+(* the frame buffer is allocated only after the announced length has been compared with the limit, in both readers
+   (checked on the source by the translator, Gen/Prealloc.v) *)
+Theorem C05_cap_checked_before_allocation : forallb snd cap_before_alloc_sites = true /\ length cap_before_alloc_sites = 2%nat.
+Proof. exact cap_checked_before_allocation. Qed.
 
 Check C05_chunking_invariant : forall m msgs cs tail, wfc cs -> Forall (fits m) msgs ->
   data_of cs = concat (map (frame m) msgs) ++ tail ->
